@@ -216,6 +216,15 @@ func genVPN(seed uint64, tier, mode string) *Script {
 		case r < 96:
 			vi := g.n(3)
 			add(Op{Kind: "vrfroutedel", Arg: []string{"green", "grey", "red"}[vi], Prefix: fmt.Sprintf("10.%d.%d.0/24", 30+vi, g.n(3))})
+		case r < 98:
+			// another PE announces (or withdraws) exactly what a local VRF originates, and wins
+			vi := g.n(3)
+			rdN := []int{3, 4, 1}[vi]
+			k := "vpnann"
+			if g.p(35) {
+				k = "vpnwd"
+			}
+			add(Op{Kind: k, Peer: g.n(2), Prefix: fmt.Sprintf("10.%d.%d.0/24", 30+vi, g.n(3)), Arg: fmt.Sprint(rdN), N: 9 + rdN, Arg2: "shadow"})
 		default:
 			p := g.n(len(sc.Peers))
 			add(Op{Kind: "flap", Peer: p})
@@ -354,10 +363,16 @@ func vpnOp(w *simWorld, actor int, op *Op) {
 			rd = fmt.Sprintf("65000:%d", op.N-9) // the RD of local VRF red/blue/green/grey
 			w.probe("vpn_announce_with_vrf_rd")
 		}
-		shared := op.Arg2 == "shared"
+		shared := op.Arg2 == "shared" || op.Arg2 == "shadow"
 		lp := 100
 		if shared {
-			rd = "65000:900"
+			if op.Arg2 == "shared" {
+				rd = "65000:900"
+			} else {
+				// "shadow": the very NLRI (RD and prefix) a local VRF originates, from another PE
+				// using the same RD, with a LOCAL_PREF that beats the locally originated route
+				w.probe("vpn_shadow_of_vrf_route")
+			}
 			lp = 100 + st.serial
 		}
 		src := fmt.Sprintf("p%d", op.Peer)
@@ -388,8 +403,8 @@ func vpnOp(w *simWorld, actor int, op *Op) {
 		if op.N >= 10 {
 			rd = fmt.Sprintf("65000:%d", op.N-9)
 		}
-		shared := op.Arg2 == "shared"
-		if shared {
+		shared := op.Arg2 == "shared" || op.Arg2 == "shadow"
+		if op.Arg2 == "shared" {
 			rd = "65000:900"
 		}
 		key := rkey(rd+":"+op.Prefix, fmt.Sprintf("p%d", op.Peer), shared)
